@@ -43,6 +43,22 @@ ANCHORS = [
 ]
 
 
+RAISING_REGISTERED = set()
+
+
+def register_raising():
+    from statham.schema.validation.format import format_checker  # pylint: disable=import-outside-toplevel
+
+    if "c08-raises" not in RAISING_REGISTERED:
+        RAISING_REGISTERED.add("c08-raises")
+
+        @format_checker.register("c08-raises")
+        def _raises(value):  # pylint: disable=unused-variable
+            if "boom" in value:
+                raise RuntimeError("checker failed")
+            return True
+
+
 def plan(tier):
     if tier == "quick":
         return {"shards": 16, "trees": 90, "calls": 18, "timeout": 300}
@@ -335,12 +351,31 @@ def run_shard(ctx):
                 spec = {"t": rng.choice(["AllOf", "AllOf", "AnyOf", "OneOf"]), "kw": {},
                         "elements": [first, filler] + ([gen.spec(1)] if rng.random() < 0.3 else [])}
                 ctx.count("trees.passthrough_first_member")
+            elif idx % 20 == 13:
+                # a member whose validation raises something that is NOT a validation error (a pattern which is
+                # a regular expression to JSON Schema but not to Python, a user's format checker that raises),
+                # inside a model that has a default: purity holds for calls that end in any exception
+                register_raising()
+                bad = rng.choice([{"pattern": "\\p{Lu}"}, {"pattern": "(?<y>\\d{4})"}, {"format": "c08-raises"}])
+                spec = {"t": "Object", "name": f"Raiser{idx}", "base": None, "id": 9000 + idx,
+                        "kw": {"default": {"code": "boom Ab", "n": 1}},
+                        "props": {"code": {"el": {"t": "String", "kw": bad}, "required": False, "source": None},
+                                  "n": {"el": {"t": "Integer", "kw": {"default": 3}}, "required": False, "source": None}}}
+                ctx.count("trees.member_raising_other_exceptions")
+                raising = True
             elif idx % 5 == 0:
                 spec = gen.family(2, levels=rng.choice([2, 2, 3]))
                 ctx.count("trees.root_is_subclass")
             else:
                 spec = gen.spec() if idx % 2 else gen.klass(gen.max_depth)
             schema = gen_dsl.to_schema(spec)
+            if locals().get("raising"):
+                raising = False
+                schema = {"type": "object", "properties": {"code": {"type": "string"}, "n": {"type": "integer"}}}
+                fixed_values = [sut.NotPassed(), {}, {"code": "boom Ab"}, {"n": 1}, sut.NotPassed(), {"code": "Ab"},
+                                {"code": 5}, sut.NotPassed(), {"n": "x"}, {}]
+            else:
+                fixed_values = None
             try:
                 element = gen_dsl.build(spec)
             except Exception as exc:  # pylint: disable=broad-except
@@ -374,6 +409,8 @@ def run_shard(ctx):
         values = [copy.deepcopy(rng.choice(base)) for _ in range(ncalls)]
         if rng.random() < 0.3:
             values[rng.randrange(len(values))] = sut.NotPassed()
+        if idx % 3 != 2 and fixed_values:
+            values = fixed_values + values[:10]
         case["values"] = [v for v in values[:30] if not isinstance(v, sut.NotPassed)]
         accepted, rejected = run_history(ctx, sut, monitors, fpm, element, twin_builder, values, case, f25)
         if nodes >= 3 and accepted and rejected:
@@ -382,6 +419,7 @@ def run_shard(ctx):
 
 
 def replay(case, ctx):
+    register_raising()
     from vlib import fingerprint as fpm  # pylint: disable=import-outside-toplevel
     from vlib import monitors, sut  # pylint: disable=import-outside-toplevel
 
